@@ -15,6 +15,7 @@ Public:
 
 All enumerations here are deterministic (sorted, no sets iterated).
 """
+import collections
 import contextlib
 import ctypes
 import dis
@@ -66,6 +67,7 @@ class _Monitor(threading.Thread):
         self.state = None          # None (disarmed) or (generation, deadline)
         self.gen = 0
         self.idle_ticks = 0        # incremented whenever the monitor observes the disarmed state
+        self.log = collections.deque(maxlen=40)   # debugging: recent arm/disarm/inject events
         self.target = threading.main_thread().ident
         self.pid = os.getpid()
 
@@ -84,6 +86,7 @@ class _Monitor(threading.Thread):
                 last_gen, next_fire = st
             if time.monotonic() >= next_fire and self.state is st:
                 inject(target, exc)
+                self.log.append(("inject", st[0], time.monotonic()))
                 next_fire = time.monotonic() + 0.05
 
 
@@ -104,6 +107,7 @@ def _watchdog(seconds):
     m.gen += 1
     deadline = time.monotonic() + seconds
     m.state = (m.gen, deadline)
+    m.log.append(("arm", m.gen, deadline - seconds, seconds))
     try:
         yield
     finally:
@@ -117,6 +121,7 @@ def _watchdog(seconds):
                     while m.idle_ticks == t and m.is_alive():
                         time.sleep(0.002)
                 ctypes.pythonapi.PyThreadState_SetAsyncExc(ctypes.c_ulong(m.target), None)   # drop a pending one
+                m.log.append(("disarmed", m.gen, time.monotonic()))
                 break
             except core.Watchdog:
                 continue
@@ -820,3 +825,39 @@ def gen_first_next_graphs(n):
                 lines.append("  go next")
                 label.append(lab)
             yield " / ".join(label), "\n".join(lines) + "\n"
+
+
+# ----------------------------------------------------------------------------- robust process map
+
+def _call(args):
+    fn, item = args
+    try:
+        return ("ok", fn(item))
+    except core.BrokenCheck as ex:
+        return ("broken", "%s\n%s" % (ex, traceback.format_exc()))
+    except core.Watchdog as ex:
+        return ("broken", "watchdog outside a guarded build: %s\n%s" % (ex, traceback.format_exc()))
+    except Exception as ex:
+        return ("broken", "%r\n%s" % (ex, traceback.format_exc()))
+
+
+def pmap(fn, items, procs=None):
+    """Like core.pmap (ordered results, forked workers) but a worker that dies (killed, segfault) turns into
+    BrokenCheck instead of blocking the parent forever as multiprocessing.Pool does."""
+    import concurrent.futures as cf
+    import multiprocessing
+    items = list(items)
+    procs = procs or core.NPROC
+    if procs <= 1 or len(items) <= 1:
+        return [fn(it) for it in items]
+    ctx = multiprocessing.get_context("fork")
+    out = []
+    with cf.ProcessPoolExecutor(max_workers=min(procs, len(items)), mp_context=ctx) as ex:
+        try:
+            for tag, val in ex.map(_call, [(fn, it) for it in items]):
+                if tag != "ok":
+                    raise core.BrokenCheck("worker failed: " + val)
+                out.append(val)
+        except cf.process.BrokenProcessPool as e:
+            raise core.BrokenCheck("a worker process died (killed from outside or crashed): %s" % e)
+    return out
